@@ -176,12 +176,14 @@ def get_compact_representation(
                 _row.append("fixed")
             else:  # parameter is not fixed, round and add errors
                 _sig_fig_err = max(2, -int(np.log10(np.abs(_par_err))) + 1)
-                _sig_fig_val = max(_sig_fig_err, -int(np.log10(np.abs(_par_val))) + 2)
+                _sig_fig_val = _sig_fig_err  # a value of exactly zero has no leading digit of its own
+                if _par_val != 0.0:
+                    _sig_fig_val = max(_sig_fig_err, -int(np.log10(np.abs(_par_val))) + 2)
                 _row.append(round(_par_val, _sig_fig_val))
                 _row.append(round(_par_err, _sig_fig_err))
             if asymmetric_parameter_errors is not None:
                 for _err in asymmetric_parameter_errors[_i]:  # iterate over up and down error
-                    if np.isnan(_err):  # parameter is fixed, no error available
+                    if np.isnan(_err) or _err == 0.0:  # parameter is fixed, no error available
                         _row.append("N/A")
                     else:
                         _sig_err = max(2, -int(np.log10(np.abs(_err))) + 1)
